@@ -647,14 +647,24 @@ def execState (prev o : Obs) (k : Nat) : Option String :=
     some s!"site=controller.execute.state executed operation {k} was {stCode prev k} and is {stCode o k}"
   else none
 
-def verdictExec (prev o : Obs) (k : Nat) (ex : Option Nat) (auth : List AuthM) : Option String :=
-  if (members prev 1).isEmpty then execState prev o k
+/-- an executed operation that names a predecessor: the accepted history must hold that predecessor's
+execution (a predecessor nobody scheduled, a cancelled or a still pending one blocks) -/
+def predBad (m : Mon) (k : Nat) : Option String :=
+  match m.defs[k]? with
+  | some d =>
+    if d.pred ≠ Id.zero ∧ m.get (some d.pred) ≠ G.done then
+      some s!"site=controller.execute.predecessor executed operation {k} {idText d.id} although its predecessor has not been executed"
+    else none
+  | none => none
+
+def verdictExec (m : Mon) (prev o : Obs) (k : Nat) (ex : Option Nat) (auth : List AuthM) : Option String :=
+  if (members prev 1).isEmpty then firstSome (predBad m k) (execState prev o k)
   else match ex with
     | none => some "site=controller.execute.role executed without naming an executor although executors are configured"
     | some x =>
       if inU x ∧ ¬ (members prev 1).contains x then some s!"site=controller.execute.role {x} executed without the executor role"
       else if ¬ auth.contains (.call x) then some s!"site=controller.execute.auth executed without {x}'s authorization"
-      else execState prev o k
+      else firstSome (predBad m k) (execState prev o k)
 
 def verdictAccept (o : Obs) (auth : List AuthM) : Option String :=
   match o.admin with
@@ -675,7 +685,7 @@ def verdictAccepted (m : Mon) (prev o : Obs) (cl : CallLine) : Option String :=
   | .check metas ctxs => verdictCheck m prev o metas (liveCtxs m.defs ctxs) cl.auth
   | .sched _ d byy => verdictSched prev d byy cl.auth
   | .cancel _ byy => verdictCancel prev byy cl.auth
-  | .exec k ex _ => verdictExec prev o k ex cl.auth
+  | .exec k ex _ => verdictExec m prev o k ex cl.auth
   | .accept => verdictAccept o cl.auth
   | .advance _ => none
   | .other _ => none
